@@ -65,6 +65,14 @@ CLAIMED = {
         text="HMC.tla models one row of the batched step action by action (momentum, gradient term at the current position, energy, L x half-kick/drift/gradient/half-kick, energy, Metropolis test ln u <= H - H', select) on a dyadic lattice where every quantity is an exact integer; TLC proves exactness of the lattice, that the code-shaped integrator (carried gradient term) is velocity Verlet, exact time reversibility and 'old row or proposal' for every configuration in the bounds incl. two consecutive steps; every behaviour is replayed through the real HMC::step with injected momenta/uniforms and must match BIT FOR BIT on the f64 backend (positions, momenta, both energies, mask), in batches, reversed batches and alone; verif_leapfrog from (x',-p') must return exactly to (x,-p); runs on Gaussian, Rosenbrock, Student-t and half-line targets (1..32 chains, dim 2..16, L 0..64, stable to overflowing step sizes) are trace-validated sub-step by sub-step against the harness's own gradients.",
         note="Trusted: TLC; hook events and overrides (feature verif-hooks); the harness's closed-form gradients for trace mode; tolerances 1e-7 (f64) / 2e-4..5e-4 (f32-level) with a 10-unit budget; exact finite ties are never generated.",
         ref="DESIGN.md 4.6, 5/C02", technique="TLC model check of HMC.tla on an exact dyadic lattice + bit-exact replay through HMC::step + trace validation on arbitrary targets (Trace_HMC)"),
+    "C03": dict(
+        text="NutsTree.tla is Algorithm 6 as coded (NUTSChain::step + build_tree) as an explicit stack machine over an abstract leapfrog trajectory indexed by integer offsets, with an oracle for slice membership, divergence and U-turns and with the exact selection distribution of the candidate propagated through every merge; TLC proves, for every oracle pattern and random choice to tree depth 2 (3 thorough): next state is 0 or a slice-admissible visited point, never from a stopped subtree, contiguous extent <= 2^j, n = 1 + |slice|, n_alpha = leaves of the last doubling, uniform selection within a subtree (a wrong merge weight is the negative control). Real transitions (Gaussians dim 1..8 with random precision, library Gaussian, Rosenbrock, funnel, divergent, NaN-region targets, forced tiny/huge step sizes up to tree depth 10, f32/f64) are validated event by event: TLC replays the stack machine with the oracle answers bound to the logged fields and requires every logged counter, extent, candidate and state to equal the machine's; every leaf is re-integrated with the harness's own leapfrog.",
+        note="Trusted: TLC; hook events; identification of trajectory points by bit pattern; the harness's closed-form gradients; quantised uniforms (2^-16, margin 2), U-turn dead zone 1e-4, divergence-bound margin 1.0. No exhaustive replay into the implementation (it cannot be steered to a chosen slice pattern).",
+        ref="DESIGN.md 4.7, 5/C03", technique="TLC model check of NutsTree.tla over all oracle patterns + trace validation of real transitions against the same stack machine (Trace_NutsTree)"),
+    "C04": dict(
+        text="MC_DualAvg.tla checks the phase machine over several run() calls (adapt exactly while m <= n_discard, then the step size equals the averaged iterate and never changes within the run, the counter persists); Trace_DualAvg validates every transition of real chains (warm-up 0..300/2000, requested acceptance 0.55..0.95, repeated run() calls, several targets, f32/f64): phase decided by the specification, counter, shrinkage point ln(10 eps), power-of-two start value, positivity/finiteness, coarse interval versions of the three dual-averaging recurrences from certified tables (gamma 0.05, t0 10, kappa 0.75) and fine residuals of the same recurrences; the start-up heuristic is called through its wrapper and must stop where Algorithm 4 stops.",
+        note="Trusted: TLC, certified tables (bin/gen_tables.py, exact integer arithmetic), the harness's f64 re-evaluation for the fine residuals. The statistical clause (realised acceptance close to requested) is reported and asserted only as a wide envelope.",
+        ref="DESIGN.md 4.7, 5/C04", technique="TLC model check of the adaptation phase machine + trace validation of real adaptation histories against DualAvg.tla with certified interval tables"),
 }
 
 PENDING_REASON = "check not built yet in this round (planned: see DESIGN.md section 5); not claimed until its TLC + conformance check exists"
